@@ -199,6 +199,19 @@ pub trait Observer {
     fn at_block(&mut self, _blk: &Term<Blk>, _state: &State) -> bool {
         true
     }
+    /// Called for `Jmp::Call` with a return site, after the call event was recorded.
+    fn at_call(&mut self, _call: &Term<Jmp>, _target: &Tid, _state: &mut State) -> CallAction {
+        CallAction::Default
+    }
+}
+/// What an observer decided about a direct call that has a return site.
+pub enum CallAction {
+    /// the interpreter havocs registers and temporaries and continues at the return site
+    Default,
+    /// the observer applied the effect of the call to the state itself; continue at the return site
+    Handled,
+    /// stop the run (budget / the callee did not return properly)
+    Stop,
 }
 pub struct NoObserver;
 impl Observer for NoObserver {}
@@ -339,7 +352,11 @@ pub fn run_sub(sub: &Term<Sub>, state: &mut State, regs: &[Variable], limits: &L
                     events.push(Event::Call { target: format!("{}", target), regs: reg_snapshot(state, regs) });
                     match return_ {
                         Some(r) => {
-                            havoc(state, regs, events.len(), havoc_keep);
+                            match obs.at_call(jmp, target, state) {
+                                CallAction::Default => havoc(state, regs, events.len(), havoc_keep),
+                                CallAction::Handled => {}
+                                CallAction::Stop => return Run { events, stop: Stop::Budget, blocks: blocks_run, callother_returns: co_returns },
+                            }
                             next = Some(r);
                             terminal = false;
                         }
